@@ -171,17 +171,26 @@ theorem putSlot_spec (p : Pool) (st : SlotState) (P : SlotState → Prop) (hall 
     · simp at h; subst h; exact hst
 
 theorem prune_spec (p : Pool) (P : SlotState → Prop) (hall : AllSlots p P) :
-    AllSlots p.prune P ∧ p.prune.epoch = p.epoch ∧ p.prune.fin = p.fin ∧ p.prune.waiting = p.waiting := by
+    AllSlots p.prune P ∧ p.prune.epoch = p.epoch ∧ p.prune.fin = p.fin := by
   unfold Pool.prune
-  exact ⟨fun st hm => hall st (List.mem_filter.mp hm).1, rfl, rfl, rfl⟩
+  exact ⟨fun st hm => hall st (List.mem_filter.mp hm).1, rfl, rfl⟩
 
-theorem handleFin_spec (p : Pool) (r : Option (PoolFin.Tracker × PoolFin.FinEvent)) (P : SlotState → Prop)
+theorem applyPr_spec (p : Pool) (r : ParentReady.Res) (P : SlotState → Prop) (hall : AllSlots p P) :
+    AllSlots (p.applyPr r).1 P ∧ (p.applyPr r).1.epoch = p.epoch ∧ (p.applyPr r).1.fin = p.fin ∧
+    (p.applyPr r).1.slots = p.slots := by
+  unfold Pool.applyPr
+  split
+  · exact ⟨hall, rfl, rfl, rfl⟩
+  · exact ⟨hall, rfl, rfl, rfl⟩
+
+theorem handleFin_spec (p : Pool) (r : Finality.Res) (P : SlotState → Prop)
     (hall : AllSlots p P) : AllSlots (p.handleFin r).1 P ∧ (p.handleFin r).1.epoch = p.epoch := by
   unfold Pool.handleFin
   split
   · exact ⟨hall, rfl⟩
   · rename_i t ev
-    have := prune_spec { p with fin := t } P hall
-    exact ⟨this.1, this.2.1⟩
+    have h1 := applyPr_spec { p with fin := t } (ParentReady.handleFinalization p.pr ev) P hall
+    have h2 := prune_spec _ P h1.1
+    exact ⟨h2.1, h2.2.1.trans h1.2.1⟩
 
 end AgModel.Pool
